@@ -14,7 +14,7 @@ import LogosModel.CertP
 import LogosModel.FastCheck
 import LogosModel.DriverLook
 import LogosModel.Emit
-import LogosModel.Passes
+import LogosModel.PassesProof
 import Std.Data.HashMap
 import LogosModel.Source
 import Std.Data.HashSet
@@ -378,7 +378,10 @@ def passesAnswer (c : Case) : String :=
   if g.states.size != f.states.size then s!"DIFF size model={g.states.size} code={f.states.size}" else
   match (List.range f.states.size).find? fun i => g.get i != f.get i with
   | some i => s!"DIFF state {i} model={repr (g.get i)} code={repr (f.get i)}"
-  | none => s!"SAME {c.rawStates.size} {f.states.size}"
+  | none =>
+    let b := fun (x : Bool) => if x then "1" else "0"
+    -- side conditions of `earlyLate_walkAttempt` on this raw graph
+    s!"SAME {c.rawStates.size} {f.states.size} side={b (Passes.rawNoEarly raw)}{b (Passes.rawRootOK raw)}{b (Passes.earlyEoiOK raw)}{b (Passes.rawClosed raw)}"
 
 def answer (c : Case) (q : List String) : String :=
   match q with
